@@ -64,7 +64,9 @@ func Start() (*Rig, error) {
 		r.Procs[svc] = p
 		r.Addr[svc] = addr
 	}
-	r.hc = &http.Client{Transport: &http.Transport{MaxIdleConnsPerHost: 64}}
+	// (redirects are reported, not followed: the harness plays clients whose requests must be relayed as they are)
+	r.hc = &http.Client{Transport: &http.Transport{MaxIdleConnsPerHost: 64},
+		CheckRedirect: func(*http.Request, []*http.Request) error { return http.ErrUseLastResponse }}
 	return r, nil
 }
 
